@@ -441,7 +441,7 @@ func TestC12(t *testing.T) {
 	// whatever the lattice spaces left over, which on a loaded machine was nothing:
 	// the chain-watcher half of the property then went unexplored without a trace
 	// other than a missing INFO line). The lattice budget starts when they are done.
-	pipeBudget := 75 * time.Second
+	pipeBudget := 100 * time.Second
 	if thorough {
 		pipeBudget = 9 * time.Minute
 	}
